@@ -931,6 +931,27 @@ fn gen_bom_universe(out: &mut Out, rng: &mut Rng, encs: &[&'static Encoding], pr
         }
     }
     let tails: [&[u8]; 4] = [b"", b"a", b"\x81\x40", b"\xE3\x81\x82\x1B"];
+    // deterministic core: a withheld EF BB followed by a byte that is not BF (and a withheld FE / FF followed by
+    // the wrong partner), every cut set of the first three bytes, both sinks, raw and with replacement, every
+    // capacity from the minimum to minimum + 3 for the call that replays the withheld bytes: the arms where the
+    // replayed EF fits and BB does not (ConvertingWithPendingBB), where neither fits, where both fit
+    for &e in encs {
+        for stream in [&b"\xEF\xBB\x41\x42"[..], b"\xEF\xBB\x81\x40", b"\xEF\xBB\xEF\xBB\xBF", b"\xEF\x41\x42", b"\xFE\x41\x42", b"\xFF\x41\x42", b"\xFE\xFE\xFF\x00\x41"] {
+            for mask in 0..8usize {
+                let mut cuts: Vec<usize> = (1..=3).filter(|i| mask & (1 << (i - 1)) != 0 && *i < stream.len()).collect();
+                cuts.push(stream.len());
+                for sink16 in [false, true] {
+                    for repl in [false, true] {
+                        for extra in 0..4usize {
+                            let m = min_cap(sink16);
+                            let p = Plan { enc: e, bom: Bom::Sniff, sink16, repl, stream: stream.to_vec(), cuts: cuts.clone(), caps: vec![m + extra], skip: false };
+                            emit(out, &p, props);
+                        }
+                    }
+                }
+            }
+        }
+    }
     for &e in encs {
         for pre in &prefixes {
             if !thorough && pre.len() == 3 && rng.chance(2, 3) {
